@@ -46,7 +46,16 @@ MsgCases == { [cls |-> "messages", in |-> [it |-> "messages", n |-> n, limit |->
                expect |-> [yield |-> All(n), terminated |-> TRUE]] : n \in 0..MaxN, l \in 1..(MaxN + 1), kd \in MsgKinds }
 DlgCases == { [cls |-> "dialogs", in |-> [it |-> "dialogs", n |-> n, limit |-> l, kind |-> kd],
                expect |-> [yield |-> All(n), terminated |-> TRUE]] : n \in 0..MaxN, l \in 1..(MaxN + 1), kd \in DlgKinds }
+\* page sizes and histories beyond the small exhaustive range (servers cap a page at 100 items; callers ask for more)
+Large == { <<101, 100>>, <<100, 101>>, <<205, 100>>, <<250, 150>>, <<250, 251>>, <<300, 150>>, <<257, 64>> }
+LargeCases == { [cls |-> "messages", in |-> [it |-> "messages", n |-> p[1], limit |-> p[2], kind |-> kd],
+                 expect |-> [yield |-> All(p[1]), terminated |-> TRUE]] : p \in Large, kd \in {"slice", "channel", "full"} }
+              \cup { [cls |-> "dialogs", in |-> [it |-> "dialogs", n |-> p[1], limit |-> p[2], kind |-> kd],
+                       expect |-> [yield |-> All(p[1]), terminated |-> TRUE]] : p \in Large, kd \in DlgKinds }
+ASSUME LargeYield == \A c \in LargeCases :
+          IF c.in.it = "messages" THEN MsgIter(c.in.n, 0, c.in.limit, c.in.kind, <<>>, 40).yield = All(c.in.n)
+          ELSE DlgIter(c.in.n, 0, c.in.limit, c.in.kind, <<>>, 40).yield = All(c.in.n)
 ASSUME MsgIterYieldsHistory == \A c \in MsgCases : MsgIter(c.in.n, 0, c.in.limit, c.in.kind, <<>>, 40).yield = All(c.in.n)
 ASSUME DlgIterYieldsHistory == \A c \in DlgCases : DlgIter(c.in.n, 0, c.in.limit, c.in.kind, <<>>, 40).yield = All(c.in.n)
-ASSUME Dump == \A c \in MsgCases \cup DlgCases : PrintT(ToJson(c))
+ASSUME Dump == \A c \in MsgCases \cup DlgCases \cup LargeCases : PrintT(ToJson(c))
 =============================================================================
